@@ -270,6 +270,10 @@ class EquationParser(object):
                 # BUT: Must break loops like:  (x=y), (y=x), since they will not converge
                 if var == self.CleanupRightHandSide(self.AllEquations[rhs]):
                     raise ValueError('Equality loop between ' + rhs + ' and ' + var)
+                # A variable with its own initial condition differs from its alias at k=0, so the two
+                # are not interchangeable: leave it as an ordinary equation.
+                if var in self.InitialConditions:
+                    continue
                 for other in self.AllEquations:
                     self.AllEquations[other] = str(replace_token(self.AllEquations[other], var, rhs).replace(' ', ''))
                     self.Tokens[other] = list_tokens(self.AllEquations[other])
